@@ -89,7 +89,7 @@ PROPS = {
         'explanation': 'Verus: mov/store_temporary/restore_temporary contracts (proved, all placements). Bounded native contract check: all maps m,n<=5 (thorough) / <=4 (quick) x kinds x offsets x 3 backends + random larger maps; never counted as proved.',
     },
     'C13': {
-        'units': ['x86_routine'],
+        'units': ['x86_routine', 'a64_routine'],
         'aux': ['native_prints'],
         'level': 'other',
         'claim': 'Prologue, epilogue and argument shuffle of the x86-64 routine are proved by Verus over the ISA model (callee-saved registers and rsp restored, result register untouched by the epilogue, stack-pointer alignment arithmetic, heap/free initialisation). The save/align/call/restore sequence around the print runtime and the whole routine skeleton (both backends) are checked by a bounded native contract check for 1..20 live variables x kind assignments x argument positions and 0..5 / 0..7 entry arguments, on machine models whose call destroys all caller-saved state and faults on a misaligned stack pointer.',
@@ -99,7 +99,7 @@ PROPS = {
         'explanation': 'Verus: x86-64 setup / cleanup / move_arguments / preamble (proved) + lemma_prologue_epilogue. Bounded: print_i64 call sequence for 1..20 live variables and whole-routine execution for every supported number of parameters on x86-64 and AArch64.',
     },
     'C20': {
-        'units': ['x86_routine'],
+        'units': ['x86_routine', 'a64_routine'],
         'aux': ['cbmc_io', 'cbmc_driver', 'native_prints'],
         'level': 'other',
         'claim': 'Generated C driver: proved by CBMC (complete: loop-free up to the fixed argument count, all 64-bit values) for 0..7 parameters - wrong argument count is reported and nothing runs, otherwise every decimal argument reaches its parameter unchanged and in order and the result of main is the result of asm_main. Argument shuffle move_arguments (x86-64): proved by Verus as one simultaneous assignment. io.c: CBMC on the real file; quick tier: all values -9999..9999 symbolically plus all boundary constants (bounded); thorough tier: the whole int64 domain partitioned into digit classes (complete iff every class finishes within its time cap). Whole-routine execution with 0..5 / 0..7 parameters on the machine models (bounded).',
@@ -109,7 +109,7 @@ PROPS = {
         'explanation': 'CBMC contracts for print_i64/println_i64 and for the generated drivers (n = 0..7), Verus contract for the argument shuffle, bounded native execution of the routine skeleton',
     },
     'C14': {
-        'units': ['x86_code', 'a64_code', 'rv64_code', 'x86_routine', 'x86_moves', 'x86_memory', 'a64_memory', 'rv64_memory'],
+        'units': ['x86_code', 'a64_code', 'rv64_code', 'x86_routine', 'a64_routine', 'x86_moves', 'x86_memory', 'a64_memory', 'rv64_memory'],
         'aux': ['native_labels', 'kani_fresh_label'],
         'level': 'proof',
         'claim': 'Every instruction pushed by any verified emitter satisfies the operand-range predicate of its printed form (immediates, displacements, register numbers), jump-table entries have the stride assumed by the tag arithmetic, spill and field offsets are in range; proved for all inputs. Label uniqueness / symbol collisions are not decided.',
